@@ -45,6 +45,7 @@ def replyLenOf (s : State) (k : Nat) : Nat :=
 
 def replyStr (s : State) (c : Call) : String :=
   let emptyStr := if c.replyLen == 0 then "any" else "none"
+  if s.badBody.contains c.k then emptyStr else   -- the body codec refused the bytes: Reply untouched
   match c.replyFrom with
   | none => emptyStr
   | some (src, .ok) =>
@@ -70,11 +71,15 @@ def insertNat (x : Nat × String) : List (Nat × String) → List (Nat × String
   | [] => [x]
   | y :: ys => if x.1 ≤ y.1 then x :: y :: ys else y :: insertNat x ys
 
+/-- a reply body the codec refuses: finishCall stores "reading body …" in Error and signals once -/
+def bodyErr (s : State) (c : Call) (e : String) : String :=
+  if s.badBody.contains c.k && c.replyFrom.isSome && e == "nil" then "bodyerr" else e
+
 def callStr (s : State) (c : Call) : String :=
   if c.form.async then
-    let cur := if c.form == .go && !c.goReturned && c.signals == 0 then "nil" else errStr (lastErr c)
+    let cur := if c.form == .go && !c.goReturned && c.signals == 0 then "nil" else bodyErr s c (errStr (lastErr c))
     s!"{c.k}:d{c.signals}:{cur}:{replyStr s c}"
-  else if c.returned then s!"{c.k}:r1:{errStr c.retErr}:{replyStr s c}"
+  else if c.returned then s!"{c.k}:r1:{bodyErr s c (errStr c.retErr)}:{replyStr s c}"
   else s!"{c.k}:r0:-:{replyStr s c}"
 
 def callList (s : State) : List Call := s.ids.filterMap s.calls
@@ -95,7 +100,7 @@ def parseForm : String → Option Form
   | _ => none
 
 def parseKind (x : String) : Option RespKind :=
-  if x == "ok" then some .ok else if x == "empty" then some .empty else if x == "shutdownmsg" then some .shutdownMsg
+  if x == "ok" || x == "badbody" then some .ok else if x == "empty" then some .empty else if x == "shutdownmsg" then some .shutdownMsg
   else if x.startsWith "err:" then (x.drop 4).toString.toNat?.map RespKind.err else none
 
 /-- Apply an environment event if enabled (the harness only records executed actions). -/
@@ -152,7 +157,8 @@ def action (s : State) (toks : List String) : Option State :=
           match c.seq with
           | some q =>
             let f : Frame := { seq := q, src := k, kind := kd }
-            let s := { s with lastResp := (k, f) :: s.lastResp.filter (·.1 != k) }
+            let s := { s with lastResp := (k, f) :: s.lastResp.filter (·.1 != k),
+                              badBody := if kind == "badbody" then k :: s.badBody else s.badBody }
             some (settled (env s (.feed f)))
           | none => none
         | _, _ => none
